@@ -39,6 +39,8 @@ RULE = ("every input of the tokenizer cover + boundary inputs + seeded soup, who
 EXPLANATION = ("table-level theorems (fast path = slow path, sets regenerated from the source) + option-flipping oracle "
                "on the real code + model/code correspondence under all option combinations")
 
+CP_DOC = ("a{c}b<a d=t{c}u e='{c}' f=\"{c}\" g{c}h><t{c}u></t{c}><!--{c}--><!DOCTYPE {c} PUBLIC '{c}' \"{c}\"><!{c}>"
+          "<title>{c}&amp{c}</title><script>{c}<!--{c}<script>{c}</script>{c}--></script>&{c};&#{c};&#x{c}<plaintext>{c}")
 LONG_RUNS = ["x" * 15 + "<", "x" * 16 + "&amp;", "x" * 17 + "\r\ny", "ab\ncd\nef\ngh\nij\nkl\nmn<p>", "é" * 9 + "\0" + "z" * 20,
              "\n" * 20 + "<a>", "a" * 31 + "\r", "a" * 32 + "\n<", "😀" * 5 + "&lt;" + "b" * 33]
 
@@ -50,6 +52,10 @@ def gen_cases(tier, rng):
     for s in LONG_RUNS:
         for st in ("-", "RawData(Rcdata)", "RawData(Rawtext)", "Plaintext", "AttributeValue(DoubleQuoted)", "AttributeValue(Unquoted)"):
             base.append(tc.case([s], state=st))
+    for text, st in tc.bulk_inputs(tier):
+        base.append(tc.case([text], state=st, last=tc.hx("s") if st != "-" else "~"))
+    for cp in tc.codepoints(tier):
+        base.append(tc.case([CP_DOC.replace("{c}", chr(cp))], pol=tc.RAW_POL))
     base += tc.random_soup(rng, 600 if tier == "quick" else 30000)
     crlf = tc.crlf_run_cover()
     base += crlf
